@@ -488,7 +488,7 @@ func runC20L(_ *testing.T, c c20LifeCase) (out kit.Outcome) {
 func TestC20_registry_lifecycle(t *testing.T) {
 	kit.RequireMode(t, "std")
 	kit.Check(t, kit.Prop[c20LifeCase]{
-		ID: "C20", Quick: 40, Thor: 3000,
+		ID: "C20", Quick: 40, Thor: 600,
 		Rule: "Start/Stop/pause/RegisterGauge sequences on both registries on the real clock (poll period 0.2-1 ms); gauge suppliers record a logical stamp and the calling goroutine's id; no poll outside Start..Stop (observed over 20 periods), one poller goroutine per started interval, Stop returns, a poll arrives after Start; non-trivial = contains Start,Start, a Stop and a pause after it",
 		Gen:  genC20L, Run: runC20L, NoShrink: true,
 	})
